@@ -34,7 +34,17 @@ Dev_HttpStaleLine ==
   /\ SameEffect /\ Released
   /\ used' = used \cup {"Dev_HttpStaleLine"}
 
-TraceNext == l <= Len(Rec) /\ l' = l + 1 /\ (Reset \/ Http \/ Dev_HttpStaleLine)
+(* fixed finding: a successful command that pushed two lines left the second one for the next command *)
+Dev_HttpMultiLine ==
+  /\ "Dev_HttpMultiLine" \in Devs
+  /\ E.ev = "http" /\ E.alive
+  /\ HasMultiPush(E.twin)
+  /\ E.entries # RefReply(E.twin)
+  /\ E.entries = ImplReplyOld(E.twin)
+  /\ SameEffect /\ Released
+  /\ used' = used \cup {"Dev_HttpMultiLine"}
+
+TraceNext == l <= Len(Rec) /\ l' = l + 1 /\ (Reset \/ Http \/ Dev_HttpStaleLine \/ Dev_HttpMultiLine)
 TraceSpec == TraceInit /\ [][TraceNext]_tvars
 
 Progress ==
